@@ -557,7 +557,7 @@ func genHReq(rt *rapid.T) HReq {
 var c08 = &h.Campaign[HTTPCase]{
 	Prop: "C08", Sub: "frontdoor",
 	Rule: "rapid: a superuser pre-history, then 1-12 requests built by class (construction, not rejection): method, Content-Type, browser header, endpoint (all seven), body class (valid, valid with lower-case/extra fields, null, truncated at a generated offset, wrong JSON type, bad base64, version out of range, non-JSON, empty), source address (known, unknown, unparsable), WhoIs answer (tagged, user, anonymous, error, rules under the plain cap / the https:// cap / both / plain cap present but empty, malformed grants), with 0-3 gates broken per request; rejected => non-2xx, no audit record, dump unchanged; accepted => status and JSON body from the ACL+map model under exactly the effective rules, recorded principal = identity; no non-200 body contains stored values; non-trivial = request rejected by exactly one gate, or accepted with a status other than 200; distinct by scenario",
-	Quick: 3000, Thorough: 150000,
+	Quick: 3000, Thorough: 600000,
 	Gen: func(rt *rapid.T) HTTPCase {
 		return HTTPCase{
 			Pre: rapid.SliceOfN(rapid.Custom(func(rt *rapid.T) dbx.Op {
